@@ -15,6 +15,7 @@ from pandas.core.algorithms import factorize_array
 from ..util import (
     ArrayType1D,
     ArrayType2D,
+    _cast_timestamps_to_ints,
     _convert_timestamp_to_tz_unaware,
     _val_to_numpy,
     argsort_index_numeric_only,
@@ -908,17 +909,23 @@ class GroupBy:
             counts_one_value = counts[slice_]
             count = np.zeros(len(self._result_index), dtype=np.int64)
 
+            # the merge kernel works on the integer view of timestamps
+            combined, orig_type = _cast_timestamps_to_ints(combined)
+
             for j, result in enumerate(results_one_value):
-                result = result[:-1]  # ignore null group
+                result, _ = _cast_timestamps_to_ints(result[:-1])  # ignore null group
                 if self._group_key_pointers is None:
-                    pointer = slice(None)
+                    pointer = slice(0, len(self._result_index))
                 else:
                     pointer = self._group_key_pointers[first_chunk_in + j]
-                combined[pointer] = numba_funcs.reduce_array_pair(
+                chunk_count = counts_one_value[j][:-1]  # ignore null group
+                merged = numba_funcs.reduce_array_pair(
                     combined[pointer], result, reducer=reducer, counts=count[pointer]
                 )
-                count[pointer] += counts_one_value[j][:-1]  # ignore null group
-            individual_results.append((combined, count))
+                # a chunk which saw nothing for a group must not contribute to it
+                combined[pointer] = np.where(chunk_count > 0, merged, combined[pointer])
+                count[pointer] += chunk_count
+            individual_results.append((combined.view(orig_type), count))
 
         return individual_results
 
